@@ -132,7 +132,8 @@ CLAIMS['C01'] = {
             'terms plus the await and subscribe action tables of After/Before/Moment/'
             'Eternity/Instant evaluated exhaustively under the three orderings of clock and '
             'date (values are only compared, so the orderings cover everything); optional '
-            'dates tested with `is None`. Numeric behaviour of user-chosen dates (rounding, '
+            'dates tested with `is None`; the wake-up of suspend/postpone withdrawn on every '
+            'exit (rule shared with C03). Numeric behaviour of user-chosen dates (rounding, '
             'inf) is not decided.',
     'note': _NOTE,
 }
@@ -174,8 +175,10 @@ CLAIMS['C03'] = {
             'revoked activations skipped and the flag plumbing of Activation/Interrupt/'
             'Loop.schedule; immediacy <=> truth (no spin); schedule precondition (C01/L3); '
             'forced-close discipline and the sound not-started predicate; the closing '
-            'sequence on every way out of a scope (rule shared with C04) and the Lock '
-            'discipline behind the kernel assertion in Lock.__aexit__ (rules of C09). '
+            'sequence on every way out of a scope (rule shared with C04), the Lock '
+            'discipline behind the kernel assertion in Lock.__aexit__ (rules of C09), '
+            'Task.__close__ finalising a task once, the Queue receive discipline (rules of '
+            'C10) and the pairing of the subscription context. '
             'Absence of livelock '
             'for arbitrary programs needs a ranking argument over run-time state and is not '
             'decided.',
